@@ -264,8 +264,25 @@ impl fmt::Display for VerifyError {
 /// `Verified<T>` can be obtained via [`Verify::into_verified`] or
 /// [`Verify::assume_verified`].
 #[derive(Clone, Debug, Eq, PartialEq)]
-#[cfg_attr(feature = "serde", derive(Deserialize, Serialize))]
+#[cfg_attr(feature = "serde", derive(Serialize))]
 pub struct Verified<T>(T);
+
+/// Deserializes the inner value and verifies it, so that a `Verified<T>`
+/// cannot be obtained from unverified data.
+#[cfg(feature = "serde")]
+impl<'de, T> Deserialize<'de> for Verified<T>
+where
+    T: Verify + Deserialize<'de>,
+{
+    fn deserialize<D>(deserializer: D) -> Result<Self, D::Error>
+    where
+        D: serde::Deserializer<'de>,
+    {
+        T::deserialize(deserializer)?
+            .into_verified()
+            .map_err(|(_, e)| serde::de::Error::custom(e))
+    }
+}
 
 impl<T> std::ops::Deref for Verified<T> {
     type Target = T;
